@@ -63,6 +63,7 @@ class Builder(object):
         self.registry = {}       # id -> built object (shared objects, top-level graders)
         self.dicts = {}          # dict_id -> the author's (shared) config dict
         self.author = []         # [label, object handed to the library, pristine digest]
+        self.all_graders = []    # every grader object built (top-level, nested, shared)
         self.resolve_ref = resolve_ref
 
     # -- data -> objects ---------------------------------------------------
@@ -161,6 +162,8 @@ class Builder(object):
             obj.env = self.env
         self.count = getattr(self, 'count', 0) + 1
         obj.sim_label = bp.get('id') or ('%s#%d' % (bp['cls'], self.count))
+        if isinstance(obj, load_lib().base.AbstractGrader):
+            self.all_graders.append(obj)
         if bp.get('id') is not None:
             self.registry[bp['id']] = obj
         return obj
